@@ -666,8 +666,11 @@ KEY_SPELLINGS = [
     "TITLE", "title", "Title", "SUBTITLE", "ARTIST", "artist", "CREDIT", "MUSIC", "BANNER", "OFFSET", "BPMS", "STOPS",
     "FREEZES", "BGCHANGES", "ANIMATIONS", "ATTACKS", "DISPLAYBPM", "displaybpm", "GENRE", "K0", "k1", "FOO BAR",
     "SELECTABLE", "K0", "TITLE",
+    # keys that need MSD escaping themselves (written escaped in the file, unescaped in the loaded simfile)
+    "CREDIT\\:URL", "A\\;B", "K\\\\0", "K\\//X", "URL\\:", "credit\\:url",
 ]
-EDIT_KEYS = ["TITLE", "ARTIST", "SUBTITLE", "K0", "K1", "NEWKEY", "CREDIT", "MUSIC", "ATTACKS", "DISPLAYBPM", "GENRE", "BPMS", "FOO BAR"]
+EDIT_KEYS = ["TITLE", "ARTIST", "SUBTITLE", "K0", "K1", "NEWKEY", "CREDIT", "MUSIC", "ATTACKS", "DISPLAYBPM", "GENRE", "BPMS", "FOO BAR",
+             "CREDIT:URL", "A;B", "K\\0", "K//X", "URL:"]
 EDIT_ATTRS = ["title", "artist", "subtitle", "credit", "music", "bpms", "offset", "stops", "bgchanges", "displaybpm", "attacks"]
 SSC_CHART_KEYS = ["CHARTNAME", "STEPSTYPE", "DESCRIPTION", "CHARTSTYLE", "DIFFICULTY", "METER", "RADARVALUES", "CREDIT", "OFFSET", "BPMS", "ATTACKS", "DISPLAYBPM", "CK"]
 CHART_ATTRS = ["stepstype", "description", "difficulty", "meter", "radarvalues", "notes"]
@@ -747,7 +750,7 @@ def s_document(enc, suffix, keyonly=True, stray=False, max_props=5, max_charts=2
             else:
                 out.append(param(draw(st.sampled_from(["NOTEDATA", "NOTEDATA", "notedata"])), [""]))
                 for _ in range(draw(st.integers(0, 4))):
-                    out.append(a_param(SSC_CHART_KEYS + ["stepstype", "Meter"]))
+                    out.append(a_param(SSC_CHART_KEYS + ["stepstype", "Meter", "CK\\:1", "C\\;K"]))
                 nk = draw(st.sampled_from(["NOTES", "NOTES", "NOTES", "NOTES2", "notes"]))
                 if keyonly and draw(st.integers(0, 11)) == 0:
                     out.append(param(nk, []))
@@ -795,7 +798,7 @@ def s_script(suffix, max_ops=4, none_values=True):
         st.tuples(st.just("delattr"), st.sampled_from(EDIT_ATTRS)),
         st.tuples(st.just("chart_add"), chart_spec()),
         st.tuples(st.just("chart_del"), idx),
-        st.tuples(st.just("chart_set"), idx, st.sampled_from(list(SIX[:5]) + (SSC_CHART_KEYS if suffix == ".ssc" else [])), alts),
+        st.tuples(st.just("chart_set"), idx, st.sampled_from(list(SIX[:5]) + (SSC_CHART_KEYS + ["CK:1", "C;K", "C//K"] if suffix == ".ssc" else [])), alts),
         st.tuples(st.just("chart_set"), idx, st.just("NOTES"), note_alts),
         st.tuples(st.just("chart_attr"), idx, st.sampled_from(CHART_ATTRS[:5]), plain_alts),
         st.tuples(st.just("charts_reverse")),
